@@ -48,7 +48,8 @@ def gen(rng, tier, index):
     for s in stems:
         r = rng.random()
         kind = "good" if r < 0.75 else "short" if r < 0.85 else "malformed" if r < 0.93 else "empty"
-        inputs.append({"stem": s, "kind": kind, "nseq": rng.randint(1, 4), "len": rng.choice([6, 12, 30])})
+        inputs.append({"stem": s, "kind": kind, "nseq": rng.randint(1, 4), "len": rng.choice([6, 12, 30]),
+                       "name_offset": rng.choice([0, 0, 0, 1, 2])})
     if len(inputs) > 1 and rng.random() < 0.25:
         # inputs with identical content under different identifiers
         for _ in range(rng.randint(1, 2)):
@@ -85,6 +86,8 @@ def gen(rng, tier, index):
         "choices": [rng.randint(0, 7) for _ in range(n + 2)],
         "dir_order": rng.choice(["sorted", "reverse", "s%d" % rng.randint(0, 9)]),
         "mode": "apply_to" if rng.random() < 0.8 else "as_completed",
+        # a shipped app that by design keeps state from the first record it sees
+        "take_n": 2 if rng.random() < 0.06 else 0,
     }
     # records already in the output store when apply_to starts (append mode): their
     # identifiers are related to, but different from, the inputs'; every input must
@@ -127,7 +130,8 @@ def _input_text(inp):
     # (the minimiser lowers integers: keep every plan a valid input file)
     ln = 4 if inp["kind"] == "short" else max(6, inp["len"])
     return "".join(
-        f">s{i}\n" + "".join(r.choice("ACGT") for _ in range(ln)) + "\n" for i in range(max(1, inp["nseq"]))
+        f">s{i + inp.get('name_offset', 0)}\n" + "".join(r.choice("ACGT") for _ in range(ln)) + "\n"
+        for i in range(max(1, inp["nseq"]))
     )
 
 
@@ -144,6 +148,10 @@ def build_app(plan, data_store=None, with_writer=True):
         nxt = get_app("min_length", plan["min_length"])
         app = nxt if app is None else app + nxt
         names.append("min_length")
+    if plan.get("take_n"):
+        nxt = get_app("take_n_seqs", number=plan["take_n"])
+        app = nxt if app is None else app + nxt
+        names.append("take_n_seqs")
     for k, st in enumerate(plan["steps"]):
         cls = va.planned_any if st.get("any") else va.planned_func if st.get("func") else va.STEP_CLASSES[k % 3]
         if st.get("func"):
@@ -184,6 +192,10 @@ def predict(plan, inp, names):
         if inp["kind"] == "short" or max(6, inp["len"]) < plan["min_length"]:
             return ("nc", "FALSE", "min_length")
         pos += 1
+    if plan.get("take_n"):
+        if max(1, inp["nseq"]) < plan["take_n"]:
+            return ("nc", "FALSE", "take_n_seqs")
+        pos += 1
     for k, st in enumerate(plan["steps"]):
         o = st["outcomes"].get(inp["stem"], "ok")
         me = names[pos + k]
@@ -209,6 +221,8 @@ def predict_detail(plan, inp):
         return (f"{stem}.fasta", None)
     if plan["min_length"] and (inp["kind"] == "short" or max(6, inp["len"]) < plan["min_length"]):
         return (f"{stem}.fasta", None)
+    if plan.get("take_n") and max(1, inp["nseq"]) < plan["take_n"]:
+        return (f"{stem}.fasta", "not enough sequences")
     for st in plan["steps"]:
         o = st["outcomes"].get(stem, "ok")
         if o == "raise":
@@ -579,6 +593,14 @@ def run(plan, tier="quick", real_pool=False) -> RunResult:
     finally:
         sql.close_all()
         simos.remove_sandbox(root)
+    if plan.get("take_n") and not plan["parallel"]:
+        # take_n_seqs(fixed_choice=True, the default) keeps the names chosen for the first
+        # record it sees: in one process the result for an input depends on what came
+        # before it (known finding C14-K1); tasks of a pool each get a fresh copy
+        res.probe("stateful-shipped-app-in-one-process")
+        for v in res.violations:
+            if v.cls.startswith(("C14.content-differs", "C14.wrong-kind")):
+                v.cls = "C14.stateful-app/take_n_seqs"
     res.executions = 1
     res.events = len(sim.events) + sql.mutating + pool.steps
     res.sim_time = pool.time
@@ -595,7 +617,7 @@ def run(plan, tier="quick", real_pool=False) -> RunResult:
     outcome_pattern = []
     for inp in plan["inputs"]:
         p = predict(plan, inp, ([] if plan["input_form"] == "objects" else ["load_unaligned"]) +
-                    (["min_length"] if plan["min_length"] else []) +
+                    (["min_length"] if plan["min_length"] else []) + (["take_n_seqs"] if plan.get("take_n") else []) +
                     ["planned_any" if st.get("any") else "planned_func" if st.get("func") else ["planned", "planned2", "planned3"][k % 3]
                      for k, st in enumerate(plan["steps"])] +
                     (["seqs_to_table"] if plan["writer"] == "tabular" else []) + ["writer"])
